@@ -308,7 +308,9 @@ def check(pid, tier, seed=None, replay=None, workers=None, budget_s=None):
     for v in r["violations"]:
       ck = class_key(v["class"])
       seen.setdefault(ck, []).append((r, v))
-  budget_confirm = cfg.get("max_confirm", 6)
+  budget_confirm = cfg.get("max_confirm", 6 if tier == "thorough" else 4)
+  # confirmation and minimisation are bounded as well: the whole check must end within budget_s + post_budget_s (+ one confirmation)
+  post_deadline = time.time() + cfg.get("post_budget_s", 900 if tier == "thorough" else 240)
   for ck, lst in seen.items():
     vclass = lst[0][1]["class"]
     k = match_known(known, pid, vclass)
@@ -332,8 +334,9 @@ def check(pid, tier, seed=None, replay=None, workers=None, budget_s=None):
       continue
     # minimise in one process, then re-confirm in a fresh one
     final = sc
-    if hasattr(mod, "shrink") and cfg.get("minimise", True):
-      mres, mcrash = single(pid, sc, build, workdir, f"min{r['idx']}", timeout=cfg.get("min_timeout_s", 900), extra={"minimise": ck})
+    min_left = min(cfg.get("min_timeout_s", 600 if tier == "thorough" else 150), post_deadline - time.time())
+    if hasattr(mod, "shrink") and cfg.get("minimise", True) and min_left >= 30:
+      mres, mcrash = single(pid, sc, build, workdir, f"min{r['idx']}", timeout=int(min_left), extra={"minimise": ck})
       if mres is not None and mres.get("minimised"):
         cand = mres["minimised"]
         cres, _ = single(pid, cand, build, workdir, f"minconf{r['idx']}")
